@@ -127,6 +127,12 @@ def handle (op : String) (args : List String) : Option String :=
     | _ => none
   | "generichash", outlen :: key :: salt :: personal :: cs => do
     some (b2Chunks (← parseNat? outlen) (← ofHex key) (← optHex salt) (← optHex personal) (← hexList cs))
+  -- return codes of the six BLAKE2b entry points for any (outlen, keylen): the range test of `b2ChunksWith` (outlen = 0 ∨ outlen > 64 ∨ keylen > 64 ⇒ -1)
+  | "generichash.lens", [outlen, keylen] => do
+    let ol ← parseNat? outlen; let kl ← parseNat? keylen
+    if ol > 2 ^ 24 ∨ kl > 2 ^ 24 then some badArgs else
+    let rc := if (b2ChunksWith C04Ref.blake2bF ol (List.replicate (min kl 65) 0x42) [] [] [[0x61, 0x62, 0x63]]) == "-1" then "-1" else "0"
+    some (" ".intercalate (List.replicate 6 rc))
   | "shorthash", [alg, key, msg] => do
     let key ← ofHex key; let msg ← ofHex msg
     if alg = "24" then some (toHex (C04Ref.siphash24 key msg)) else some (toHex (C04Ref.siphashx24 key msg))
